@@ -435,6 +435,20 @@ def translate_smd() -> tuple[str, dict]:
     body = exp.body
     if body and isinstance(body[0], ast.Expr) and isinstance(body[0].value, ast.Constant) and isinstance(body[0].value.value, str):
         body = body[1:]
+    # the regular expression Mesh._parse_smd_bones matches a nodes line with
+    regex = None
+    for n in tree.body:
+        if isinstance(n, ast.ClassDef) and n.name == 'Mesh':
+            for f in n.body:
+                if isinstance(f, ast.FunctionDef) and f.name == '_parse_smd_bones':
+                    for c in ast.walk(f):
+                        if isinstance(c, ast.Call) and ast.unparse(c.func) in ('re.fullmatch', 're.match') and len(c.args) == 2 \
+                                and isinstance(c.args[0], ast.Constant) and isinstance(c.args[0].value, bytes):
+                            if regex is not None or ast.unparse(c.func) != 're.fullmatch':
+                                raise TranslateError('smd.py: _parse_smd_bones: more than one pattern, or not a full match')
+                            regex = c.args[0].value
+    if regex is None:
+        raise TranslateError('smd.py: Mesh._parse_smd_bones: re.fullmatch(<bytes pattern>, line) not found')
     L = _Lines()
     rest = L.block(body, {()})
     dangling = [p for p in rest if p]
@@ -447,11 +461,1393 @@ def translate_smd() -> tuple[str, dict]:
         ';\n'.join('  [' + '; '.join(_coq_piece(p) for p in ln) + ']' for ln in lines),
         '].',
         f'Definition smd_unterminated_lines : nat := {len(dangling)}.',
+        f'Definition smd_nodes_regex : list N := {_coq_bytes(regex)}.   (* pattern of Mesh._parse_smd_bones *)',
         '',
     ]
-    side = {'n_lines': len(lines), 'write_sites': L.census, 'unterminated': len(dangling), 'export_digest': ast_digest(exp),
+    side = {'n_lines': len(lines), 'nodes_regex': regex.decode('latin1'), 'write_sites': L.census, 'unterminated': len(dangling), 'export_digest': ast_digest(exp),
             'lines': [' '.join((p[1].decode('latin1') if p[0] == 'Lit' else '<' + p[0] + '>') for p in ln) for ln in lines]}
     return '\n'.join(out), side
 
 
-GEN = {'CmdSeqFmt_gen': translate_cmdseq, 'SmdTpl_gen': translate_smd}
+# ================================================================================================ scenes.image
+
+def _le_fields(fmt: str, what: str) -> list[str]:
+    """A little-endian struct format of the dialect used by the scenes.image code: '<' then <n>s / i / I with counts."""
+    if not fmt.startswith('<'):
+        raise TranslateError(f'choreo.py: {what}: struct format {fmt!r} is not explicit little-endian')
+    out: list[str] = []
+    pos = 1
+    for m in re.finditer(r'(\d*)([A-Za-z?])', fmt[1:]):
+        if m.start() + 1 != pos:
+            raise TranslateError(f'choreo.py: {what}: cannot parse struct format {fmt!r}')
+        pos = m.end() + 1
+        cnt, code = m.group(1), m.group(2)
+        if code == 's':
+            out.append(f'SS {int(cnt or "1")}%nat')
+        elif code in ('i', 'I'):
+            out.extend(['SI' if code == 'i' else 'SU'] * int(cnt or '1'))
+        else:
+            raise TranslateError(f'choreo.py: {what}: struct code {code!r} is not modelled')
+    if pos != len(fmt):
+        raise TranslateError(f'choreo.py: {what}: cannot parse struct format {fmt!r}')
+    return out
+
+
+def _const_str(node: ast.AST, what: str) -> str:
+    if isinstance(node, ast.Constant) and isinstance(node.value, str):
+        return node.value
+    raise TranslateError(f'choreo.py: {what}: expected a string literal, got `{ast.unparse(node)}`')
+
+
+def _counted_fmt(node: ast.AST, what: str) -> tuple[str, str]:
+    """f'<{count}i' -> (count expression, field code)."""
+    if isinstance(node, ast.JoinedStr) and len(node.values) == 3 and isinstance(node.values[0], ast.Constant) \
+            and node.values[0].value == '<' and isinstance(node.values[1], ast.FormattedValue) \
+            and node.values[1].format_spec is None and node.values[1].conversion == -1 \
+            and isinstance(node.values[2], ast.Constant) and node.values[2].value in ('i', 'I', 's'):
+        return ast.unparse(node.values[1].value), node.values[2].value
+    raise TranslateError(f'choreo.py: {what}: counted struct format `{ast.unparse(node)}` not recognised')
+
+
+def _lambda_attr(node: ast.AST, what: str) -> str:
+    """lambda e: e.ATTR -> ATTR"""
+    if isinstance(node, ast.Lambda) and len(node.args.args) == 1 and not node.args.defaults and isinstance(node.body, ast.Attribute) \
+            and isinstance(node.body.value, ast.Name) and node.body.value.id == node.args.args[0].arg:
+        return node.body.attr
+    if isinstance(node, ast.Call) and ast.unparse(node.func) in ('operator.attrgetter', 'attrgetter') and len(node.args) == 1 \
+            and isinstance(node.args[0], ast.Constant) and isinstance(node.args[0].value, str) and '.' not in node.args[0].value:
+        return node.args[0].value
+    raise TranslateError(f'choreo.py: {what}: sort key `{ast.unparse(node)}` is not an attribute of the entry')
+
+
+_EATTR = {'checksum': 'ACrc', 'duration_ms': 'ADur', 'last_speak_ms': 'ALast'}
+
+
+def _eattr(name: str) -> str:
+    return _EATTR.get(name, 'AOther')
+
+
+def _sort_call_key(call: ast.Call, what: str) -> str:
+    """Keywords of list.sort / sorted -> Coq sortkey for a sort over Entry objects."""
+    key = None
+    for kw in call.keywords:
+        if kw.arg == 'key':
+            key = kw.value
+        elif kw.arg == 'reverse' and isinstance(kw.value, ast.Constant) and kw.value.value is False:
+            pass
+        else:
+            raise TranslateError(f'choreo.py: {what}: sort option `{ast.unparse(kw)}` is not modelled')
+    if key is None:
+        raise TranslateError(f'choreo.py: {what}: sort of entries without a key function')
+    return f'SKAttr {_eattr(_lambda_attr(key, what))}'
+
+
+def _input_form(expr: ast.AST, src: str, what: str) -> tuple[str, str]:
+    """Classify `scene_list = <expr>` for one input form: returns (which entries: 'values'|'iter', Coq sortkey).
+    `src` is the parameter name (scenes)."""
+    def plain(e: ast.AST) -> str | None:
+        if isinstance(e, ast.Name) and e.id == src:
+            return 'iter'
+        if isinstance(e, ast.Call) and not e.args and not e.keywords and isinstance(e.func, ast.Attribute) and e.func.attr == 'values' \
+                and isinstance(e.func.value, ast.Name) and e.func.value.id == src:
+            return 'values'
+        return None
+    if isinstance(expr, ast.Call) and isinstance(expr.func, ast.Name) and expr.func.id == 'list' and len(expr.args) == 1 and not expr.keywords:
+        p = plain(expr.args[0])
+        if p is not None:
+            return p, 'SKNone'
+        inner = expr.args[0]
+        if isinstance(inner, ast.Call) and isinstance(inner.func, ast.Name) and inner.func.id == 'sorted':
+            return _input_form(inner, src, what)
+    if isinstance(expr, ast.Call) and isinstance(expr.func, ast.Name) and expr.func.id == 'sorted' and len(expr.args) == 1:
+        p = plain(expr.args[0])
+        if p is not None:
+            return p, _sort_call_key(expr, what)
+    # [entry for key, entry in sorted(scenes.items())]  -- ordered by the mapping key
+    if isinstance(expr, ast.ListComp) and len(expr.generators) == 1 and not expr.generators[0].ifs:
+        g = expr.generators[0]
+        it = g.iter
+        if isinstance(g.target, ast.Tuple) and len(g.target.elts) == 2 and all(isinstance(t, ast.Name) for t in g.target.elts) \
+                and isinstance(expr.elt, ast.Name) and expr.elt.id == g.target.elts[1].id:
+            def items(e: ast.AST) -> bool:
+                return isinstance(e, ast.Call) and not e.args and not e.keywords and isinstance(e.func, ast.Attribute) \
+                    and e.func.attr == 'items' and isinstance(e.func.value, ast.Name) and e.func.value.id == src
+            if items(it):
+                return 'values', 'SKNone'
+            if isinstance(it, ast.Call) and isinstance(it.func, ast.Name) and it.func.id == 'sorted' and len(it.args) == 1 and items(it.args[0]):
+                if not it.keywords:
+                    return 'values', 'SKDictKey'
+                kf = [kw.value for kw in it.keywords if kw.arg == 'key']
+                if len(kf) == 1 and len(it.keywords) == 1 and isinstance(kf[0], ast.Lambda) and len(kf[0].args.args) == 1:
+                    a = kf[0].args.args[0].arg
+                    b = kf[0].body
+                    if isinstance(b, ast.Subscript) and isinstance(b.value, ast.Name) and b.value.id == a and isinstance(b.slice, ast.Constant):
+                        if b.slice.value == 0:
+                            return 'values', 'SKDictKey'
+                    if isinstance(b, ast.Attribute) and isinstance(b.value, ast.Subscript) and isinstance(b.value.value, ast.Name) \
+                            and b.value.value.id == a and isinstance(b.value.slice, ast.Constant) and b.value.slice.value == 1:
+                        return 'values', f'SKAttr {_eattr(b.attr)}'
+    raise TranslateError(f'choreo.py: {what}: `{ast.unparse(expr)}` is not a recognised way to list the entries')
+
+
+def _names_in(node: ast.AST) -> set[str]:
+    return {n.id for n in ast.walk(node) if isinstance(n, ast.Name)}
+
+
+def _attr_call(node: ast.AST, obj: str, meth: str) -> ast.Call | None:
+    if isinstance(node, ast.Call) and isinstance(node.func, ast.Attribute) and node.func.attr == meth \
+            and isinstance(node.func.value, ast.Name) and node.func.value.id == obj:
+        return node
+    return None
+
+
+def _struct_pack(node: ast.AST) -> tuple[str, list[ast.AST]] | None:
+    if isinstance(node, ast.Call) and ast.unparse(node.func) in ('struct.pack', 'pack') and node.args and not node.keywords \
+            and isinstance(node.args[0], ast.Constant) and isinstance(node.args[0].value, str):
+        return node.args[0].value, list(node.args[1:])
+    return None
+
+
+def _coq_pairs(flds: list[str], srcs: list[str], what: str) -> str:
+    if len(flds) != len(srcs):
+        raise TranslateError(f'choreo.py: {what}: {len(flds)} struct fields but {len(srcs)} values')
+    return '[' + '; '.join(f'({f}, {s})' for f, s in zip(flds, srcs)) + ']'
+
+
+def translate_scenes_image() -> tuple[str, dict]:
+    tree = ast.parse(src_text('choreo.py'))
+    funcs = {n.name: n for n in tree.body if isinstance(n, ast.FunctionDef)}
+    classes = {n.name: n for n in tree.body if isinstance(n, ast.ClassDef)}
+    for need in ('save_scenes_image_sync', 'parse_scenes_image'):
+        if need not in funcs:
+            raise TranslateError(f'choreo.py: function {need} not found')
+    if 'Entry' not in classes:
+        raise TranslateError('choreo.py: class Entry not found')
+    side: dict = {}
+
+    # ---------------------------------------------------------------- Entry: constructor order (attrs fields in class-body order)
+    entry_fields: list[str] = []
+    for st in classes['Entry'].body:
+        if isinstance(st, ast.AnnAssign) and isinstance(st.target, ast.Name):
+            nm = st.target.id
+            if isinstance(st.value, ast.Call) and ast.unparse(st.value.func) == 'attrs.field':
+                for kw in st.value.keywords:
+                    if kw.arg == 'alias':
+                        nm = _const_str(kw.value, 'Entry field alias')
+            entry_fields.append(st.target.id)
+    if entry_fields[:5] != ['filename', 'checksum', 'duration_ms', 'last_speak_ms', 'sounds']:
+        raise TranslateError(f'choreo.py: Entry fields {entry_fields} not recognised')
+
+    # ================================================================ writer
+    w = funcs['save_scenes_image_sync']
+    params = [a.arg for a in w.args.args]
+    if params[:2] != ['file', 'scenes']:
+        raise TranslateError('choreo.py: save_scenes_image_sync signature changed')
+    enc_default = None
+    for a, d in zip(w.args.kwonlyargs, w.args.kw_defaults):
+        if a.arg == 'encoding':
+            enc_default = _const_str(d, 'encoding default')
+    body = list(w.body)
+    if body and isinstance(body[0], ast.Expr) and isinstance(body[0].value, ast.Constant) and isinstance(body[0].value.value, str):
+        body = body[1:]
+
+    LIST = None           # name of the list of entries
+    forms: dict[str, tuple[str, str]] = {}
+    pool_fn = None        # add_to_pool
+    pool_name = None
+    deferred = None
+    sort_sites: list[tuple[int, str]] = []      # (index of top-level statement, sortkey)
+    pool_loop_idx = None
+    loops: list[tuple[int, ast.For]] = []
+    events: list[dict] = []                     # top-level layout events in order
+
+    for idx, st in enumerate(body):
+        # --- the input normalisation
+        if isinstance(st, ast.If) and isinstance(st.test, ast.Call) and ast.unparse(st.test.func) == 'isinstance' \
+                and ast.unparse(st.test.args[0]) == 'scenes':
+            if ast.unparse(st.test.args[1]) != 'dict':
+                raise TranslateError('choreo.py: save_scenes_image_sync: input form test is not isinstance(scenes, dict)')
+            for form, blk in (('dict', st.body), ('iter', st.orelse)):
+                if len(blk) != 1 or not isinstance(blk[0], ast.Assign) or len(blk[0].targets) != 1 or not isinstance(blk[0].targets[0], ast.Name):
+                    raise TranslateError('choreo.py: save_scenes_image_sync: input normalisation branch not recognised')
+                nm = blk[0].targets[0].id
+                if LIST not in (None, nm):
+                    raise TranslateError('choreo.py: save_scenes_image_sync: the two input forms fill different lists')
+                LIST = nm
+                which, key = _input_form(blk[0].value, 'scenes', f'input form {form}')
+                if (form, which) not in (('dict', 'values'), ('iter', 'iter')):
+                    raise TranslateError(f'choreo.py: save_scenes_image_sync: input form {form} takes its entries from {which}')
+                forms[form] = (which, key)
+            continue
+        if LIST is None:
+            if 'scenes' in _names_in(st):
+                raise TranslateError(f'choreo.py: save_scenes_image_sync: line {st.lineno}: `scenes` used before the input normalisation')
+            continue
+        # --- after normalisation: `scenes` must not be used any more (every later loop sees the normalised list)
+        if 'scenes' in _names_in(st):
+            raise TranslateError(f'choreo.py: save_scenes_image_sync: line {st.lineno}: the raw `scenes` argument is used after normalisation')
+        # --- helper bindings
+        if isinstance(st, ast.Assign) and len(st.targets) == 1 and isinstance(st.targets[0], ast.Name):
+            t = st.targets[0].id
+            v = st.value
+            if isinstance(v, ast.Call) and ast.unparse(v.func) == 'binformat.find_or_insert':
+                pool_fn, pool_name = t, ast.unparse(v.args[0])
+                if len(v.args) != 2 or not (isinstance(v.args[1], ast.Lambda) and isinstance(v.args[1].body, ast.Name)
+                                            and v.args[1].body.id == v.args[1].args.args[0].arg):
+                    raise TranslateError('choreo.py: save_scenes_image_sync: string pool is not keyed by the string itself')
+                continue
+            if isinstance(v, ast.Call) and ast.unparse(v.func) == 'binformat.DeferredWrites':
+                deferred = t
+                continue
+            if t == LIST:
+                # re-assignment of the list, e.g. scene_list = sorted(scene_list, key=...)
+                if isinstance(v, ast.Call) and isinstance(v.func, ast.Name) and v.func.id == 'sorted' and len(v.args) == 1 \
+                        and isinstance(v.args[0], ast.Name) and v.args[0].id == LIST:
+                    sort_sites.append((idx, _sort_call_key(v, f'line {st.lineno}')))
+                    continue
+                raise TranslateError(f'choreo.py: save_scenes_image_sync: line {st.lineno}: the entry list is rebuilt in an unrecognised way')
+        # --- in-place sort
+        if isinstance(st, ast.Expr):
+            c = _attr_call(st.value, LIST, 'sort')
+            if c is not None:
+                if c.args:
+                    raise TranslateError(f'choreo.py: line {st.lineno}: positional arguments to list.sort')
+                sort_sites.append((idx, _sort_call_key(c, f'line {st.lineno}')))
+                continue
+            if isinstance(st.value, ast.Call) and isinstance(st.value.func, ast.Attribute) and isinstance(st.value.func.value, ast.Name) \
+                    and st.value.func.value.id == LIST:
+                raise TranslateError(f'choreo.py: line {st.lineno}: `{ast.unparse(st.value)}` changes the entry list in a way that is not modelled')
+        if isinstance(st, ast.For):
+            if isinstance(st.iter, ast.Name) and st.iter.id == LIST:
+                loops.append((idx, st))
+                if pool_loop_idx is None and pool_fn is not None and any(
+                        isinstance(n, ast.Name) and n.id == pool_fn for n in ast.walk(st)) and not any(
+                        _attr_call(n, 'file', 'write') is not None for n in ast.walk(st)):
+                    pool_loop_idx = idx
+            elif LIST in _names_in(st.iter):
+                raise TranslateError(f'choreo.py: line {st.lineno}: loop over `{ast.unparse(st.iter)}` (a view of the entry list that is not modelled)')
+        elif LIST in _names_in(st) and not isinstance(st, ast.Expr):
+            # uses such as len(scene_list) inside writes are handled below; anything else that mentions the list is unknown
+            if not (isinstance(st, ast.Assert)):
+                raise TranslateError(f'choreo.py: line {st.lineno}: statement uses the entry list in a way that is not modelled')
+    if LIST is None or set(forms) != {'dict', 'iter'}:
+        raise TranslateError('choreo.py: save_scenes_image_sync: input normalisation (dict / iterable) not found')
+    if pool_fn is None or deferred is None:
+        raise TranslateError('choreo.py: save_scenes_image_sync: find_or_insert pool / DeferredWrites not found')
+    if pool_loop_idx is None:
+        raise TranslateError('choreo.py: save_scenes_image_sync: the loop that fills the string pool was not found')
+
+    # the sort that is in effect for each form when the pool is filled, and when the table is written
+    def effective(form: str, before_idx: int) -> str:
+        key = forms[form][1]
+        for i, k in sort_sites:
+            if i < before_idx:
+                key = k          # a later sort replaces the order (list.sort is total on the key; ties keep the earlier order)
+        return key
+
+    # ---------------------------------------------------------------- layout events of the writer
+    def src_of(e: ast.AST, loopvar: str | None, inner: str | None) -> str:
+        s = ast.unparse(e)
+        if isinstance(e, ast.Constant) and isinstance(e.value, bytes):
+            return 'magic:' + e.value.hex()
+        if s == 'version':
+            return 'HVersion'
+        if s == f'len({LIST})':
+            return 'HSceneCount'
+        if s == f'len({pool_name})':
+            return 'HPoolCount'
+        if s == 'file.tell()':
+            return 'tell'
+        if s == 'len(data)':
+            return 'EDataSize'
+        if loopvar and isinstance(e, ast.Attribute) and isinstance(e.value, ast.Name) and e.value.id == loopvar:
+            return 'attr:' + e.attr
+        if loopvar and s == f'len({loopvar}.sounds)':
+            return 'SSoundCount'
+        if inner and s == f'{pool_fn}({inner})':
+            return 'SoundIndex'
+        raise TranslateError(f'choreo.py: save_scenes_image_sync: written value `{s}` not recognised')
+
+    def key_of(e: ast.AST, loopvar: str | None) -> str:
+        if isinstance(e, ast.Constant) and isinstance(e.value, str):
+            return 'k:' + e.value
+        if isinstance(e, ast.Tuple) and len(e.elts) == 2 and isinstance(e.elts[0], ast.Constant) and loopvar \
+                and isinstance(e.elts[1], ast.Attribute) and isinstance(e.elts[1].value, ast.Name) and e.elts[1].value.id == loopvar:
+            return f'k:{e.elts[0].value}:{e.elts[1].attr}'
+        raise TranslateError(f'choreo.py: save_scenes_image_sync: deferred key `{ast.unparse(e)}` not recognised')
+
+    def layout(stmts: list[ast.stmt], ctx: tuple, loopvar: str | None, inner: str | None) -> None:
+        for st in stmts:
+            if isinstance(st, ast.Expr) and isinstance(st.value, ast.Call):
+                c = st.value
+                wr = _attr_call(c, 'file', 'write')
+                if wr is not None:
+                    a = wr.args[0]
+                    pk = _struct_pack(a)
+                    if pk is not None:
+                        events.append({'k': 'pack', 'ctx': ctx, 'fmt': pk[0], 'src': [src_of(x, loopvar, inner) for x in pk[1]], 'line': st.lineno})
+                    elif isinstance(a, ast.BinOp) and isinstance(a.op, ast.Add) and isinstance(a.right, ast.Constant) and a.right.value == b'\x00' \
+                            and isinstance(a.left, ast.Call) and isinstance(a.left.func, ast.Attribute) and a.left.func.attr == 'encode':
+                        events.append({'k': 'cstring', 'ctx': ctx, 'what': ast.unparse(a.left.func.value), 'enc': ast.unparse(a.left.args[0]) if a.left.args else '', 'line': st.lineno})
+                    elif isinstance(a, ast.Name) and a.id == 'data':
+                        events.append({'k': 'blob', 'ctx': ctx, 'line': st.lineno})
+                    else:
+                        raise TranslateError(f'choreo.py: save_scenes_image_sync: line {st.lineno}: file.write(`{ast.unparse(a)}`) not recognised')
+                    continue
+                d = _attr_call(c, deferred, 'defer')
+                if d is not None:
+                    kw = {k.arg: k.value for k in d.keywords}
+                    if len(d.args) != 2 or set(kw) != {'write'} or not (isinstance(kw['write'], ast.Constant) and kw['write'].value is True):
+                        raise TranslateError(f'choreo.py: line {st.lineno}: deferred.defer call shape not recognised (placeholder bytes must be written)')
+                    if isinstance(d.args[1], ast.JoinedStr):
+                        cnt, code = _counted_fmt(d.args[1], f'line {st.lineno}')
+                        fmt = ('counted', cnt, code)
+                    else:
+                        fmt = _const_str(d.args[1], f'line {st.lineno}')
+                    events.append({'k': 'defer', 'ctx': ctx, 'key': key_of(d.args[0], loopvar), 'fmt': fmt, 'line': st.lineno})
+                    continue
+                d = _attr_call(c, deferred, 'set_data')
+                if d is not None:
+                    vals = []
+                    for x in d.args[1:]:
+                        if isinstance(x, ast.Call) and ast.unparse(x.func) == 'binformat.write_array':
+                            vals.append('array:' + _const_str(x.args[0], 'write_array format') + ':' + ast.unparse(x.args[1]))
+                        else:
+                            vals.append(src_of(x, loopvar, inner))
+                    events.append({'k': 'set', 'ctx': ctx, 'key': key_of(d.args[0], loopvar), 'src': vals, 'line': st.lineno})
+                    continue
+                d = _attr_call(c, deferred, 'write')
+                if d is not None:
+                    events.append({'k': 'flush', 'ctx': ctx, 'line': st.lineno})
+                    continue
+                if _attr_call(c, 'offsets', 'append') is not None and ast.unparse(c.args[0]) == 'file.tell()':
+                    events.append({'k': 'offset', 'ctx': ctx, 'line': st.lineno})
+                    continue
+                if 'file' in _names_in(st) or deferred in _names_in(st):
+                    raise TranslateError(f'choreo.py: save_scenes_image_sync: line {st.lineno}: `{ast.unparse(st)}` uses the file in a way that is not modelled')
+                continue
+            if isinstance(st, ast.For):
+                tv = ast.unparse(st.target)
+                it = ast.unparse(st.iter)
+                if st.orelse:
+                    raise TranslateError(f'choreo.py: line {st.lineno}: loop else-clause not modelled')
+                if it == LIST and loopvar is None:
+                    layout(st.body, ctx + ('entries',), tv, None)
+                elif loopvar and it == f'{loopvar}.sounds':
+                    layout(st.body, ctx + ('sounds',), loopvar, tv)
+                elif it == pool_name and loopvar is None:
+                    layout(st.body, ctx + ('pool',), None, None)
+                elif any(_attr_call(n, 'file', 'write') is not None or (isinstance(n, ast.Name) and n.id == deferred) for n in ast.walk(st)):
+                    raise TranslateError(f'choreo.py: line {st.lineno}: writing loop over `{it}` not recognised')
+                continue
+            if isinstance(st, ast.If):
+                has_io = any(_attr_call(n, 'file', 'write') is not None or (isinstance(n, ast.Name) and n.id == deferred) for n in ast.walk(st))
+                if not has_io:
+                    if any(isinstance(n, ast.Name) and n.id == 'file' for n in ast.walk(st)):
+                        raise TranslateError(f'choreo.py: line {st.lineno}: `file` used in a conditional that does not write')
+                    continue
+                t = st.test
+                if isinstance(t, ast.Compare) and ast.unparse(t.left) == 'version' and len(t.ops) == 1 and isinstance(t.ops[0], ast.Eq) \
+                        and isinstance(t.comparators[0], ast.Constant) and isinstance(t.comparators[0].value, int):
+                    layout(st.body, ctx + (('version==', t.comparators[0].value),), loopvar, inner)
+                    layout(st.orelse, ctx + (('version!=', t.comparators[0].value),), loopvar, inner)
+                    continue
+                raise TranslateError(f'choreo.py: line {st.lineno}: conditional write on `{ast.unparse(t)}` not modelled')
+            if isinstance(st, (ast.Assign, ast.AnnAssign, ast.AugAssign, ast.Assert, ast.Pass)):
+                if any(_attr_call(n, 'file', 'write') is not None for n in ast.walk(st)) or deferred in _names_in(st) - {deferred if isinstance(st, ast.Assign) and ast.unparse(st.targets[0]) == deferred else ''}:
+                    raise TranslateError(f'choreo.py: line {st.lineno}: write hidden in `{ast.unparse(st)[:60]}`')
+                continue
+            if isinstance(st, (ast.Expr,)):
+                continue
+            raise TranslateError(f'choreo.py: save_scenes_image_sync: line {st.lineno}: statement {type(st).__name__} not modelled')
+    first_io = next((i for i, st in enumerate(body) if any(_attr_call(n, 'file', 'write') is not None for n in ast.walk(st))), None)
+    if first_io is None:
+        raise TranslateError('choreo.py: save_scenes_image_sync writes nothing')
+    layout(body, (), None, None)
+
+    # ---------------------------------------------------------------- match the layout against the container skeleton
+    def take(pred, what: str) -> dict:
+        for e in events:
+            if not e.get('used') and pred(e):
+                e['used'] = True
+                return e
+        raise TranslateError(f'choreo.py: save_scenes_image_sync: {what} not found in the writer')
+    top_pack = take(lambda e: e['k'] == 'pack' and e['ctx'] == (), 'header struct.pack')
+    d_soff = take(lambda e: e['k'] == 'defer' and e['ctx'] == () and e['key'] == 'k:scene_offset', 'deferred scene offset')
+    d_pool = take(lambda e: e['k'] == 'defer' and e['ctx'] == () and e['key'] == 'k:pool_offsets', 'deferred pool offsets')
+    ev_cstr = take(lambda e: e['k'] == 'cstring' and e['ctx'] == ('pool',), 'pool string write')
+    ev_off = take(lambda e: e['k'] == 'offset' and e['ctx'] == ('pool',), 'pool offset bookkeeping')
+    s_pool = take(lambda e: e['k'] == 'set' and e['ctx'] == () and e['key'] == 'k:pool_offsets', 'pool offsets data')
+    s_soff = take(lambda e: e['k'] == 'set' and e['ctx'] == () and e['key'] == 'k:scene_offset', 'scene offset data')
+    t_crc = take(lambda e: e['k'] == 'pack' and e['ctx'] == ('entries',), 'table record pack')
+    t_data = take(lambda e: e['k'] == 'defer' and e['ctx'] == ('entries',) and e['key'].startswith('k:data:'), 'deferred data slot')
+    t_sum = take(lambda e: e['k'] == 'defer' and e['ctx'] == ('entries',) and e['key'].startswith('k:summary:'), 'deferred summary slot')
+    s_sum = take(lambda e: e['k'] == 'set' and e['ctx'] == ('entries',) and e['key'].startswith('k:summary:'), 'summary offset data')
+    v_eq = [e for e in events if e['k'] == 'pack' and len(e['ctx']) == 2 and e['ctx'][0] == 'entries' and isinstance(e['ctx'][1], tuple)]
+    if len(v_eq) != 2 or {e['ctx'][1][0] for e in v_eq} != {'version==', 'version!='} or len({e['ctx'][1][1] for e in v_eq}) != 1:
+        raise TranslateError('choreo.py: save_scenes_image_sync: the two summary layouts (version test) were not recognised')
+    for e in v_eq:
+        e['used'] = True
+    sum_eq = next(e for e in v_eq if e['ctx'][1][0] == 'version==')
+    sum_ne = next(e for e in v_eq if e['ctx'][1][0] == 'version!=')
+    v_test_w = sum_eq['ctx'][1][1]
+    snd = take(lambda e: e['k'] == 'pack' and e['ctx'] == ('entries', 'sounds'), 'sound index pack')
+    s_data = take(lambda e: e['k'] == 'set' and e['ctx'] == ('entries',) and e['key'].startswith('k:data:'), 'data slot data')
+    blob = take(lambda e: e['k'] == 'blob' and e['ctx'] == ('entries',), 'blob write')
+    flush = take(lambda e: e['k'] == 'flush' and e['ctx'] == (), 'deferred.write()')
+    left = [e for e in events if not e.get('used')]
+    if left:
+        raise TranslateError(f'choreo.py: save_scenes_image_sync: line {left[0]["line"]}: write not part of the modelled layout')
+    order = [e['line'] for e in (top_pack, d_soff, d_pool, ev_cstr, s_pool, s_soff, t_crc, t_data, t_sum, s_sum, sum_eq, snd, s_data, blob, flush)]
+    # positions in the event list = order of execution for straight-line code; loops are entered in source order
+    pos = {id(e): i for i, e in enumerate(events)}
+    seq = [top_pack, d_soff, d_pool, ev_cstr, s_soff, t_crc, t_data, t_sum, s_sum, sum_eq, snd, s_data, blob]
+    seq_ok = all(pos[id(a)] < pos[id(b)] or (a is sum_eq) for a, b in zip(seq, seq[1:])) and pos[id(s_soff)] < pos[id(t_crc)] \
+        and pos[id(ev_off)] < pos[id(ev_cstr)] and pos[id(s_sum)] < min(pos[id(sum_eq)], pos[id(sum_ne)]) \
+        and max(pos[id(sum_eq)], pos[id(sum_ne)]) < pos[id(snd)] and pos[id(s_data)] < pos[id(blob)]
+    # table loop: the three table events are in one loop; summary loop and data loop are separate later loops
+    loop_of = {}
+    for li, (idx, lp) in enumerate(loops):
+        for n in ast.walk(lp):
+            if hasattr(n, 'lineno'):
+                loop_of.setdefault(n.lineno, li)
+    tl = {loop_of.get(e['line']) for e in (t_crc, t_data, t_sum)}
+    sl = {loop_of.get(e['line']) for e in (s_sum, sum_eq, sum_ne, snd)}
+    dl = {loop_of.get(e['line']) for e in (s_data, blob)}
+    loops_ok = len(tl) == 1 and len(sl) == 1 and len(dl) == 1 and None not in (tl | sl | dl) and max(tl) < min(sl) and max(sl) < min(dl)
+    table_loop_idx = loops[min(tl)][0] if loops_ok else len(body)
+
+    def hsrc(s: str) -> str:
+        if s.startswith('magic:'):
+            return 'HMagic'
+        if s in ('HVersion', 'HSceneCount', 'HPoolCount'):
+            return s
+        return 'HOther'
+    magic_w = next((bytes.fromhex(s[6:]) for s in top_pack['src'] if s.startswith('magic:')), b'')
+    hdr_w_f = _le_fields(top_pack['fmt'], 'header pack') + _le_fields(d_soff['fmt'], 'scene offset slot')
+    hdr_w_s = [hsrc(s) for s in top_pack['src']] + ['HSceneOff' if s_soff['src'] == ['tell'] else 'HOther']
+
+    def esrc(s: str) -> str:
+        return f'EAttr {_eattr(s[5:])}' if s.startswith('attr:') else 'EOther'
+    ent_w_f = _le_fields(t_crc['fmt'], 'table record') + _le_fields(t_data['fmt'], 'data slot') + _le_fields(t_sum['fmt'], 'summary slot')
+    ent_w_s = [esrc(s) for s in t_crc['src']] + [{'tell': 'EDataOff', 'EDataSize': 'EDataSize'}.get(s, 'EOther') for s in s_data['src']] \
+        + ['ESumOff' if s_sum['src'] == ['tell'] else 'EOther']
+    if pos[id(t_data)] > pos[id(t_sum)]:
+        # slots are laid out in the order of the defer calls
+        ent_w_f = _le_fields(t_crc['fmt'], 'table record') + _le_fields(t_sum['fmt'], 'summary slot') + _le_fields(t_data['fmt'], 'data slot')
+        ent_w_s = [ent_w_s[0], ent_w_s[-1]] + ent_w_s[1:-1]
+
+    def ssrc(s: str) -> str:
+        if s.startswith('attr:'):
+            return f'SAttr {_eattr(s[5:])}'
+        return 'SSoundCount' if s == 'SSoundCount' else 'SOther'
+    table_attr = t_crc['src'][0][5:] if t_crc['src'] and t_crc['src'][0].startswith('attr:') else '?'
+    defer_attrs = {e['key'].split(':')[2] for e in (t_data, t_sum, s_sum, s_data)}
+    pool_slot = None
+    if isinstance(d_pool['fmt'], tuple) and d_pool['fmt'][2] == 's':
+        # pool_offset_size = len(pool) * binformat.SIZE_INT
+        for st in body:
+            if isinstance(st, ast.Assign) and ast.unparse(st.targets[0]) == d_pool['fmt'][1] and isinstance(st.value, ast.BinOp) \
+                    and isinstance(st.value.op, ast.Mult):
+                parts = {ast.unparse(st.value.left), ast.unparse(st.value.right)}
+                if f'len({pool_name})' in parts:
+                    other = (parts - {f'len({pool_name})'}).pop()
+                    pool_slot = {'binformat.SIZE_INT': 4, '4': 4, 'binformat.SIZE_SHORT': 2, 'binformat.SIZE_LONG': 8}.get(other)
+    if pool_slot is None:
+        raise TranslateError('choreo.py: save_scenes_image_sync: size of the pool offset block not recognised')
+    arr = s_pool['src'][0].split(':') if s_pool['src'] and s_pool['src'][0].startswith('array:') else None
+    if arr is None or arr[2] != 'offsets':
+        raise TranslateError('choreo.py: save_scenes_image_sync: pool offsets are not written with write_array(fmt, offsets)')
+    pooloff_w = _le_fields(arr[1], 'pool offset array')
+    if len(pooloff_w) != 1:
+        raise TranslateError('choreo.py: pool offset array format is not a single integer code')
+    enc_w = ev_cstr['enc']
+    if enc_w == 'encoding':
+        enc_w = repr(enc_default)
+
+    # ================================================================ reader
+    r = funcs['parse_scenes_image']
+    rb = list(r.body)
+    reads: list[dict] = []
+
+    def struct_read_call(v: ast.AST) -> ast.Call | None:
+        if isinstance(v, ast.Call) and ast.unparse(v.func) == 'binformat.struct_read' and len(v.args) == 2 and ast.unparse(v.args[1]) == 'file':
+            return v
+        return None
+    magic_r = None
+    versions_r: list[int] = []
+    v_test_r = None
+    pool_count_var = enc_r = pool_var = None
+    seeks: list[tuple[int, str]] = []
+    table_targets: list[str] = []
+    table_fmt = None
+    table_count = None
+    ctor: dict[str, str] = {}
+    sum_reads: dict[str, tuple[str, list[str]]] = {}
+    last_default = None
+    snd_fmt = None
+    data_read = None
+    for n in ast.walk(r):
+        if isinstance(n, ast.Assign) and len(n.targets) == 1:
+            c = struct_read_call(n.value)
+            t = n.targets[0]
+            if c is not None and isinstance(t, (ast.List, ast.Tuple)) and all(isinstance(x, ast.Name) for x in t.elts):
+                reads.append({'fmt': _const_str(c.args[0], 'struct_read format'), 'targets': [x.id for x in t.elts], 'line': n.lineno})
+            if isinstance(n.value, ast.Call) and ast.unparse(n.value.func) == 'binformat.read_offset_array':
+                a = n.value.args
+                pool_var = ast.unparse(t)
+                pool_count_var = ast.unparse(a[1])
+                enc_r = ast.unparse(a[2]) if len(a) > 2 else "'ascii'"
+        if isinstance(n, ast.If) and isinstance(n.test, ast.Compare) and len(n.test.ops) == 1:
+            l, op, rr = ast.unparse(n.test.left), n.test.ops[0], n.test.comparators[0]
+            if l == 'magic' and isinstance(op, ast.NotEq) and isinstance(rr, ast.Constant) and isinstance(rr.value, bytes) \
+                    and len(n.body) == 1 and isinstance(n.body[0], ast.Raise):
+                magic_r = rr.value
+            elif l == 'version' and isinstance(op, ast.NotIn) and isinstance(rr, (ast.Tuple, ast.List, ast.Set)) \
+                    and all(isinstance(x, ast.Constant) and isinstance(x.value, int) for x in rr.elts) and isinstance(n.body[0], ast.Raise):
+                versions_r = [x.value for x in rr.elts]
+            elif l == 'version' and isinstance(op, ast.Eq) and isinstance(rr, ast.Constant):
+                v_test_r = rr.value
+                for arm, blk in (('eq', n.body), ('ne', n.orelse)):
+                    for st in blk:
+                        if isinstance(st, ast.Assign) and struct_read_call(st.value) is not None:
+                            sum_reads[arm] = (_const_str(st.value.args[0], 'summary format'), [x.id for x in st.targets[0].elts])
+                        elif isinstance(st, ast.Assign) and isinstance(st.value, ast.Name) and isinstance(st.targets[0], ast.Name):
+                            last_default = (arm, st.targets[0].id, st.value.id)
+                        else:
+                            raise TranslateError(f'choreo.py: parse_scenes_image: line {st.lineno}: statement in the version test not recognised')
+        if isinstance(n, ast.Call):
+            if _attr_call(n, 'file', 'seek') is not None:
+                seeks.append((n.lineno, ast.unparse(n.args[0])))
+            if ast.unparse(n.func) == 'Entry':
+                if n.keywords:
+                    for kw in n.keywords:
+                        ctor[kw.arg] = ast.unparse(kw.value)
+                for nm, a in zip(entry_fields, n.args):
+                    ctor[nm] = ast.unparse(a)
+            if _attr_call(n, 'file', 'read') is not None:
+                data_read = ast.unparse(n.args[0])
+        if isinstance(n, ast.ListComp) and len(n.generators) == 1:
+            g = n.generators[0]
+            c = struct_read_call(n.elt)
+            if c is not None and isinstance(g.iter, ast.Call) and ast.unparse(g.iter.func) == 'range' and len(g.iter.args) == 1:
+                table_fmt = _const_str(c.args[0], 'table record format')
+                table_count = ast.unparse(g.iter.args[0])
+            c = struct_read_call(g.iter)
+            if c is not None and isinstance(n.elt, ast.Subscript) and ast.unparse(n.elt.slice) == ast.unparse(g.target):
+                cnt, code = _counted_fmt(c.args[0], 'sound index format')
+                snd_fmt = (cnt, code, ast.unparse(n.elt.value))
+        if isinstance(n, ast.For) and isinstance(n.target, ast.Tuple) and ast.unparse(n.iter) == 'scene_data':
+            table_targets = [ast.unparse(x) for x in n.target.elts]
+    hdr_reads = [x for x in reads if 'magic' in x['targets']]
+    if len(hdr_reads) != 1 or magic_r is None or not versions_r or v_test_r is None or set(sum_reads) != {'eq', 'ne'} \
+            or table_fmt is None or not table_targets or snd_fmt is None or pool_var is None or data_read is None or not ctor:
+        raise TranslateError('choreo.py: parse_scenes_image: header / version tests / table / summary / sound reads not all recognised')
+    hr = hdr_reads[0]
+    data_off_var = sum_off_var = None
+    # summary offset = the seek target that precedes the summary struct_read; data offset = the one that precedes file.read
+    read_line = next(n.lineno for n in ast.walk(r) if isinstance(n, ast.Call) and _attr_call(n, 'file', 'read') is not None)
+    sum_line = min(n.lineno for n in ast.walk(r) if isinstance(n, ast.If) and ast.unparse(n.test).startswith('version =='))
+    tab_seeks = [(ln, s) for ln, s in seeks if s in table_targets]
+    for ln, s in tab_seeks:
+        if ln < sum_line:
+            sum_off_var = s
+        elif ln < read_line or ln == read_line:
+            data_off_var = s
+    scene_off_var = next((s for ln, s in seeks if s in hr['targets']), None)
+
+    def h_r(t: str) -> str:
+        if t == 'magic':
+            return 'HMagic'
+        if t == 'version':
+            return 'HVersion'
+        if t == table_count:
+            return 'HSceneCount'
+        if t == pool_count_var:
+            return 'HPoolCount'
+        if t == scene_off_var:
+            return 'HSceneOff'
+        return 'HOther'
+    inv_ctor = {v: k for k, v in ctor.items()}
+
+    def e_r(t: str) -> str:
+        if t in inv_ctor and inv_ctor[t] in _EATTR:
+            return f'EAttr {_EATTR[inv_ctor[t]]}'
+        if t == data_off_var:
+            return 'EDataOff'
+        if t == data_read:
+            return 'EDataSize'
+        if t == sum_off_var:
+            return 'ESumOff'
+        return 'EOther'
+
+    def s_r(t: str) -> str:
+        if t in inv_ctor and inv_ctor[t] in _EATTR:
+            return f'SAttr {_EATTR[inv_ctor[t]]}'
+        if t == snd_fmt[0]:
+            return 'SSoundCount'
+        return 'SOther'
+    eq_r, ne_r = sum_reads['eq'], sum_reads['ne']
+    # reader's substitute for the missing field in the short summary
+    ld_ok = last_default is not None and last_default[0] == 'ne' and inv_ctor.get(last_default[1]) == 'last_speak_ms' \
+        and inv_ctor.get(last_default[2]) == 'duration_ms'
+    sounds_from_pool = snd_fmt[2] == pool_var and inv_ctor.get('sounds') == 'sounds' or ctor.get('sounds') is not None and snd_fmt[2] == pool_var
+    key_store = None
+    for n in ast.walk(r):
+        if isinstance(n, ast.Assign) and isinstance(n.targets[0], ast.Subscript) and isinstance(n.value, ast.Call) and ast.unparse(n.value.func) == 'Entry':
+            key_store = ast.unparse(n.targets[0].slice)
+
+    def b(x: bool) -> str:
+        return 'true' if x else 'false'
+    sk_pool = {f: effective(f, pool_loop_idx) for f in ('dict', 'iter')}
+    sk_table = {f: effective(f, table_loop_idx) for f in ('dict', 'iter')}
+    lines = [
+        '(* GENERATED by translate/c20_formats.py from /repo/src/srctools/choreo.py (save_scenes_image_sync, parse_scenes_image). Do not edit. *)',
+        'From Coq Require Import NArith List Bool.', 'Import ListNotations.',
+        'From SV Require Import Fmt.ScenesImageCfg.',
+        'Definition si_gen_cfg : icfg := {|',
+        f'  ic_magic_w := {_coq_bytes(magic_w)}; ic_magic_r := {_coq_bytes(magic_r)};',
+        f'  ic_hdr_w := {_coq_pairs(hdr_w_f, hdr_w_s, "header (writer)")};   (* {top_pack["fmt"]} + slot {d_soff["fmt"]} *)',
+        f'  ic_hdr_r := {_coq_pairs(_le_fields(hr["fmt"], "header (reader)"), [h_r(t) for t in hr["targets"]], "header (reader)")};   (* {hr["fmt"]} *)',
+        f'  ic_ent_w := {_coq_pairs(ent_w_f, ent_w_s, "table record (writer)")};',
+        f'  ic_ent_r := {_coq_pairs(_le_fields(table_fmt, "table record (reader)"), [e_r(t) for t in table_targets], "table record (reader)")};   (* {table_fmt} *)',
+        f'  ic_sumL_w := {_coq_pairs(_le_fields(sum_eq["fmt"], "summary"), [ssrc(s) for s in sum_eq["src"]], "long summary (writer)")};',
+        f'  ic_sumL_r := {_coq_pairs(_le_fields(eq_r[0], "summary"), [s_r(t) for t in eq_r[1]], "long summary (reader)")};',
+        f'  ic_sumS_w := {_coq_pairs(_le_fields(sum_ne["fmt"], "summary"), [ssrc(s) for s in sum_ne["src"]], "short summary (writer)")};',
+        f'  ic_sumS_r := {_coq_pairs(_le_fields(ne_r[0], "summary"), [s_r(t) for t in ne_r[1]], "short summary (reader)")};',
+        f'  ic_snd_w := {_coq_pairs(_le_fields(snd["fmt"], "sound index"), ["SoundIdx" if s == "SoundIndex" else "SoundOther" for s in snd["src"]], "sound index (writer)")};',
+        f'  ic_snd_r := {"SI" if snd_fmt[1] == "i" else "SU"};',
+        f'  ic_pooloff_w := {pooloff_w[0]}; ic_pool_slot := {pool_slot}%nat;',
+        f'  ic_long_version_w := {v_test_w}%N; ic_long_version_r := {v_test_r}%N; ic_versions_r := [{"; ".join(str(v) for v in versions_r)}]%N;',
+        f'  ic_sort_dict := {sk_table["dict"]}; ic_sort_iter := {sk_table["iter"]};',
+        f'  ic_pool_sort_dict := {sk_pool["dict"]}; ic_pool_sort_iter := {sk_pool["iter"]};',
+        f'  ic_defer_key := {_eattr(next(iter(defer_attrs))) if len(defer_attrs) == 1 else "AOther"};',
+        f'  ic_layout_in_order := {b(seq_ok and loops_ok)};',
+        f'  ic_short_summary_last_is_duration := {b(ld_ok)};',
+        f'  ic_sounds_through_pool := {b(bool(sounds_from_pool))};',
+        f'  ic_same_encoding := {b(enc_w == enc_r)};',
+        f'  ic_reader_keys_by_crc := {b(key_store is not None and inv_ctor.get(key_store) == "checksum")}',
+        '|}.',
+        '',
+    ]
+    side.update(writer_events=[{k: (list(v) if isinstance(v, tuple) else v) for k, v in e.items() if k != 'used'} for e in events],
+                forms=forms, sort_sites=sort_sites, pool_loop_stmt=pool_loop_idx, table_loop_stmt=table_loop_idx,
+                sort_in_effect_for_pool=sk_pool, sort_in_effect_for_table=sk_table, table_attr=table_attr,
+                reader=dict(header=hr, table=[table_fmt, table_targets], summaries=sum_reads, sound=snd_fmt, ctor=ctor, seeks=seeks),
+                encodings=[enc_w, enc_r], digests={'save': ast_digest(w), 'parse': ast_digest(r)})
+    return '\n'.join(lines), side
+
+
+# ================================================================================================ text writers: field census
+
+class _TextCensus:
+    """Classify every value a text export function interpolates into what it writes.
+
+    class : FEscQuoted  "...{escape_text(x)}..." between double quotes
+            FEscBare    escape_text(x) not between quotes (the reader only un-escapes inside quotes)
+            FRawQuoted  "{x}" between double quotes, written as it is
+            FRawBare    {x} not between quotes
+            FCondQuoted quoted when a _needs_quotes-style test says so (VMT)
+    type  : TyStr (free text) / TyNum / TyWord (enum member, constant table entry, object with a fixed vocabulary) /
+            TyPair (join_float: "a, b") / TyConst (a str parameter that every caller passes a literal for)
+    """
+
+    def __init__(self, rel: str, file_names: tuple[str, ...] = ('file', 'f')) -> None:
+        self.rel = rel
+        self.tree = ast.parse(src_text(rel))
+        self.file_names = file_names
+        self.ann: dict[str, set[str]] = {}
+        self.const_tables: set[str] = set()
+        self.funcs: dict[str, ast.FunctionDef] = {}
+        self.sites: list[tuple[int, str, str, str]] = []   # (line, class, type, source)
+        for n in self.tree.body:
+            if isinstance(n, ast.Assign) and len(n.targets) == 1 and isinstance(n.targets[0], ast.Name):
+                self._maybe_table(n.targets[0].id, n.value)
+            elif isinstance(n, ast.AnnAssign) and isinstance(n.target, ast.Name) and n.value is not None:
+                self._maybe_table(n.target.id, n.value)
+            elif isinstance(n, ast.FunctionDef):
+                self.funcs[n.name] = n
+            elif isinstance(n, ast.ClassDef):
+                for st in ast.walk(n):
+                    if isinstance(st, ast.AnnAssign):
+                        nm = st.target.id if isinstance(st.target, ast.Name) else st.target.attr if isinstance(st.target, ast.Attribute) else None
+                        if nm:
+                            self.ann.setdefault(nm, set()).add(ast.unparse(st.annotation))
+                    elif isinstance(st, ast.FunctionDef):
+                        self.funcs[f'{n.name}.{st.name}'] = st
+                        if st.name == '__init__':
+                            for a in st.args.args + st.args.kwonlyargs:
+                                if a.annotation is not None:
+                                    self.ann.setdefault(a.arg, set()).add(ast.unparse(a.annotation))
+                        if any(isinstance(d, ast.Name) and d.id == 'property' for d in st.decorator_list) and st.returns is not None:
+                            self.ann.setdefault(st.name, set()).add(ast.unparse(st.returns))
+
+    def _maybe_table(self, name: str, v: ast.AST) -> None:
+        """Module-level dict whose keys and values are constants or enum members: a fixed vocabulary."""
+        if isinstance(v, ast.Dict) and v.keys and all(isinstance(k, (ast.Constant, ast.Attribute)) for k in v.keys) \
+                and all(isinstance(x, (ast.Constant, ast.Attribute)) for x in v.values):
+            self.const_tables.add(name)
+        if isinstance(v, ast.DictComp):
+            self.const_tables.add(name)
+
+    # ---- typing of an expression
+    def type_of(self, e: ast.AST, env: dict[str, str], where: str) -> str:
+        if isinstance(e, ast.Constant):
+            return 'TyWord' if isinstance(e.value, str) else 'TyNum'
+        if isinstance(e, ast.BoolOp) and isinstance(e.op, ast.Or) and len(e.values) == 2 and isinstance(e.values[1], ast.Constant):
+            return self.type_of(e.values[0], env, where)
+        if isinstance(e, ast.Name):
+            if e.id in env:
+                return env[e.id]
+            raise TranslateError(f'{self.rel}: {where}: written name `{e.id}` has no known type')
+        if isinstance(e, ast.Subscript):
+            if isinstance(e.value, ast.Name) and e.value.id in self.const_tables:
+                return 'TyWord'
+            return self.type_of(e.value, env, where)
+        if isinstance(e, ast.Call):
+            fn = ast.unparse(e.func)
+            if fn == 'join_float':
+                return 'TyPair'
+            if isinstance(e.func, ast.Attribute) and e.func.attr in ('lower', 'upper', 'casefold') and not e.args:
+                return self.type_of(e.func.value, env, where)
+            if fn in ('len', 'int', 'round'):
+                return 'TyNum'
+            raise TranslateError(f'{self.rel}: {where}: written call `{ast.unparse(e)}` not recognised')
+        if isinstance(e, ast.Attribute):
+            if e.attr == 'name' and isinstance(e.value, ast.Attribute) and self._kind(e.value.attr) == 'TyWord':
+                return 'TyWord'        # enum member name
+            return self._kind(e.attr, where)
+        raise TranslateError(f'{self.rel}: {where}: written expression `{ast.unparse(e)}` not recognised')
+
+    def _kind(self, attr: str, where: str | None = None) -> str:
+        anns = self.ann.get(attr)
+        if not anns:
+            if where is None:
+                return '?'
+            raise TranslateError(f'{self.rel}: {where}: attribute `{attr}` has no annotation in this module')
+        if any(re.search(r'\bstr\b', a) for a in anns):
+            return 'TyStr'
+        if all(re.fullmatch(r'(Optional\[)?(int|float|bool)(\])?( \| None)?', a) for a in anns):
+            return 'TyNum'
+        return 'TyWord'
+
+    # ---- pieces of a written string
+    def pieces(self, e: ast.AST, env: dict[str, str], tpl: dict[str, list], where: str) -> list[list]:
+        """-> list of alternatives; each alternative is a list of ('lit', text) / ('fld', esc: bool, type, source)."""
+        if isinstance(e, ast.Constant) and isinstance(e.value, str):
+            return [[('lit', e.value)]]
+        if isinstance(e, ast.IfExp):
+            return self.pieces(e.body, env, tpl, where) + self.pieces(e.orelse, env, tpl, where)
+        if isinstance(e, ast.BinOp) and isinstance(e.op, ast.Add):
+            return [a + b for a in self.pieces(e.left, env, tpl, where) for b in self.pieces(e.right, env, tpl, where)]
+        if isinstance(e, ast.JoinedStr):
+            alts: list[list] = [[]]
+            for v in e.values:
+                if isinstance(v, ast.Constant):
+                    alts = [a + [('lit', v.value)] for a in alts]
+                    continue
+                if v.conversion != -1:
+                    raise TranslateError(f'{self.rel}: {where}: !r / !s conversion in a written f-string')
+                inner = v.value
+                if v.format_spec is not None:
+                    spec = ''.join(x.value for x in v.format_spec.values if isinstance(x, ast.Constant))
+                    if not re.fullmatch(r'\.?\d*[dfg]?', spec):
+                        raise TranslateError(f'{self.rel}: {where}: format spec {spec!r} not recognised')
+                    alts = [a + [('fld', False, 'TyNum', ast.unparse(inner))] for a in alts]
+                    continue
+                if isinstance(inner, ast.Name) and inner.id in tpl:
+                    alts = [a + b for a in alts for b in tpl[inner.id]]
+                    continue
+                if isinstance(inner, ast.Name) and env.get(inner.id) == 'layout':
+                    alts = [a + [('lit', '')] for a in alts]
+                    continue
+                if isinstance(inner, ast.Call) and ast.unparse(inner.func) == 'escape_text' and len(inner.args) == 1:
+                    ty = self.type_of(inner.args[0], env, where)
+                    alts = [a + [('fld', True, ty, ast.unparse(inner.args[0]))] for a in alts]
+                    continue
+                ty = self.type_of(inner, env, where)
+                alts = [a + [('fld', False, ty, ast.unparse(inner))] for a in alts]
+            return alts
+        if isinstance(e, ast.Name) and e.id in tpl:
+            return tpl[e.id]
+        if isinstance(e, (ast.Attribute, ast.Name, ast.Subscript, ast.Call)):
+            return [[('fld', False, self.type_of(e, env, where), ast.unparse(e))]]
+        raise TranslateError(f'{self.rel}: {where}: written expression `{ast.unparse(e)}` not recognised')
+
+    def record(self, alts: list[list], line: int, cond: dict[str, str] | None = None) -> None:
+        for alt in alts:
+            flat: list = []
+            for p in alt:       # merge literals
+                if p[0] == 'lit' and flat and flat[-1][0] == 'lit':
+                    flat[-1] = ('lit', flat[-1][1] + p[1])
+                elif not (p[0] == 'lit' and p[1] == ''):
+                    flat.append(p)
+            for i, p in enumerate(flat):
+                if p[0] != 'fld':
+                    continue
+                before = flat[i - 1][1] if i > 0 and flat[i - 1][0] == 'lit' else ''
+                after = flat[i + 1][1] if i + 1 < len(flat) and flat[i + 1][0] == 'lit' else ''
+                quoted = before.endswith('"') and after.startswith('"')
+                if cond and p[3] in cond:
+                    klass = 'FCondQuoted'
+                elif p[1]:
+                    klass = 'FEscQuoted' if quoted else 'FEscBare'
+                else:
+                    klass = 'FRawQuoted' if quoted else 'FRawBare'
+                site = (line, klass, p[2], p[3])
+                if site not in self.sites:
+                    self.sites.append(site)
+
+    # ---- walking a function
+    def walk(self, key: str, const_params: dict[str, str] | None = None) -> ast.FunctionDef:
+        fn = self.funcs.get(key)
+        if fn is None:
+            raise TranslateError(f'{self.rel}: function {key} not found')
+        env: dict[str, str] = {}
+        for a in fn.args.args:
+            ann = ast.unparse(a.annotation) if a.annotation is not None else ''
+            if a.arg in ('indent', 'start_indent'):
+                env[a.arg] = 'layout'
+            elif a.arg in self.file_names or a.arg in ('self', 'cls'):
+                continue
+            elif ann == 'str':
+                env[a.arg] = (const_params or {}).get(a.arg, 'TyStr')
+            elif ann in ('int', 'float', 'bool'):
+                env[a.arg] = 'TyNum'
+            else:
+                env[a.arg] = 'TyWord'
+        tpl: dict[str, list] = {}
+        cond: dict[str, str] = {}
+        self._block(fn.body, env, tpl, cond, key)
+        return fn
+
+    def _is_write(self, st: ast.stmt) -> ast.AST | None:
+        for nm in self.file_names:
+            a = _is_file_write(st, nm)
+            if a is not None:
+                return a
+        return None
+
+    def _block(self, stmts: list[ast.stmt], env: dict[str, str], tpl: dict[str, list], cond: dict[str, str], key: str) -> None:
+        for st in stmts:
+            where = f'{key} line {st.lineno}'
+            a = self._is_write(st)
+            if a is not None:
+                self.record(self.pieces(a, env, tpl, where), st.lineno, cond)
+                continue
+            if isinstance(st, ast.If):
+                # VMT: if _needs_quotes(x): x = f'"{x}"'
+                t = st.test
+                if isinstance(t, ast.Call) and isinstance(t.func, ast.Name) and t.func.id.startswith('_needs_quotes') and len(t.args) == 1 \
+                        and isinstance(t.args[0], ast.Name) and len(st.body) == 1 and not st.orelse and isinstance(st.body[0], ast.Assign) \
+                        and ast.unparse(st.body[0].targets[0]) == t.args[0].id and ast.unparse(st.body[0].value) == f"""f'"{{{t.args[0].id}}}"'""":
+                    cond[t.args[0].id] = t.func.id
+                    continue
+                self._block(st.body, env, tpl, cond, key)
+                self._block(st.orelse, env, tpl, cond, key)
+                continue
+            if isinstance(st, ast.For):
+                tgt, it = st.target, st.iter
+                if isinstance(tgt, ast.Name):
+                    ty = 'TyWord'
+                    if isinstance(it, ast.Attribute):
+                        anns = self.ann.get(it.attr, set())
+                        if any(re.search(r'\bstr\b', x) for x in anns):
+                            ty = 'TyStr'
+                    env[tgt.id] = ty
+                elif isinstance(tgt, ast.Tuple) and isinstance(it, (ast.List, ast.Tuple)) and all(
+                        isinstance(el, ast.Tuple) and len(el.elts) == len(tgt.elts) for el in it.elts):
+                    # a literal table of rows: a column of string constants is a fixed vocabulary
+                    for col, x in enumerate(tgt.elts):
+                        cells = [el.elts[col] for el in it.elts]
+                        if all(isinstance(c, ast.Constant) and isinstance(c.value, str) for c in cells):
+                            env[x.id] = 'TyWord'
+                        else:
+                            kinds = {self.type_of(c, env, where) for c in cells}
+                            env[x.id] = kinds.pop() if len(kinds) == 1 else 'TyWord'
+                elif isinstance(tgt, ast.Tuple) and isinstance(it, ast.Call) and isinstance(it.func, ast.Attribute) and it.func.attr == 'items':
+                    base = it.func.value
+                    if isinstance(base, ast.Name) and base.id in self.const_tables:
+                        for x in tgt.elts:
+                            env[x.id] = 'TyWord'
+                    else:
+                        anns = self.ann.get(base.attr, set()) if isinstance(base, ast.Attribute) else set()
+                        ty = 'TyStr' if any(re.search(r'\bstr\b', x) for x in anns) else 'TyWord'
+                        for x in tgt.elts:
+                            env[x.id] = ty
+                self._block(st.body, env, tpl, cond, key)
+                continue
+            if isinstance(st, ast.Assign) and len(st.targets) == 1 and isinstance(st.targets[0], ast.Name):
+                nm = st.targets[0].id
+                v = st.value
+                if isinstance(v, (ast.JoinedStr, ast.IfExp)) or (isinstance(v, ast.Constant) and isinstance(v.value, str)):
+                    try:
+                        alts = self.pieces(v, env, tpl, where)
+                    except TranslateError:
+                        alts = None
+                    if alts is not None:
+                        tpl[nm] = tpl.get(nm, []) + alts
+                        continue
+                if isinstance(v, ast.Attribute):
+                    env[nm] = self._kind(v.attr) if self._kind(v.attr) != '?' else 'TyWord'
+                elif isinstance(v, ast.Name) and v.id in env:
+                    env[nm] = env[v.id]
+                else:
+                    env.setdefault(nm, 'TyWord')
+                continue
+            if isinstance(st, (ast.Expr, ast.Return, ast.Pass, ast.Assert, ast.AnnAssign, ast.AugAssign, ast.Raise)):
+                if any(isinstance(n, ast.Call) and isinstance(n.func, ast.Attribute) and n.func.attr == 'write'
+                       and isinstance(n.func.value, ast.Name) and n.func.value.id in self.file_names for n in ast.walk(st)):
+                    raise TranslateError(f'{self.rel}: {where}: write in a position that is not modelled')
+                continue
+            if isinstance(st, (ast.With, ast.Try, ast.While)):
+                raise TranslateError(f'{self.rel}: {where}: statement {type(st).__name__} not modelled in a text writer')
+
+    def const_callers(self, method: str, param_index: int) -> bool:
+        """Every call `X.<method>(...)` in the module passes a string literal at the given position."""
+        ok = False
+        for n in ast.walk(self.tree):
+            if isinstance(n, ast.Call) and isinstance(n.func, ast.Attribute) and n.func.attr == method and len(n.args) > param_index:
+                if not (isinstance(n.args[param_index], ast.Constant) and isinstance(n.args[param_index].value, str)):
+                    return False
+                ok = True
+        return ok
+
+
+def _coq_sites(name: str, sites: list[tuple[int, str, str, str]]) -> str:
+    body = ';\n'.join(f'  mkSite {ln} {k} {t}   (* {src} *)' if False else f'  mkSite {ln} {k} {t}' for ln, k, t, src in sites)
+    return f'Definition {name} : list fsite := [\n{body}\n].'
+
+
+def _snd_stack_census(fn: ast.FunctionDef, parse_one: ast.FunctionDef, init: ast.FunctionDef) -> tuple[list, list]:
+    """Writer: (block name written, attribute guarding the block, attribute serialised into it).
+    Reader: (block name looked up, attribute the result is stored in)."""
+    def self_attr(e: ast.AST) -> str | None:
+        return e.attr if isinstance(e, ast.Attribute) and isinstance(e.value, ast.Name) and e.value.id == 'self' else None
+    written: list[tuple[str, str, str]] = []
+
+    def block_name(text: str) -> str | None:
+        m = re.fullmatch(r'\s*([A-Za-z_]+)\s*\{\s*', text)
+        return m.group(1) if m else None
+
+    def scan(stmts: list[ast.stmt]) -> None:
+        for st in stmts:
+            if isinstance(st, ast.If):
+                guard = self_attr(st.test)
+                names = []
+                srcs = []
+                for sub in st.body:
+                    a = _is_file_write(sub)
+                    if a is not None and isinstance(a, ast.Constant) and isinstance(a.value, str):
+                        b = block_name(a.value)
+                        if b:
+                            names.append(b)
+                    if isinstance(sub, ast.For) and any(isinstance(n, ast.Attribute) and n.attr == 'serialise' for n in ast.walk(sub)):
+                        srcs.append(self_attr(sub.iter) or ast.unparse(sub.iter))
+                if guard and srcs:
+                    if len(names) != 1 or len(srcs) != 1:
+                        raise TranslateError(f'sndscript.py: Sound.export line {st.lineno}: operator stack block not recognised')
+                    written.append((names[0], guard, srcs[0]))
+                else:
+                    scan(st.body)
+                    scan(st.orelse)
+            elif isinstance(st, ast.For):
+                # for name, stack in [('start_stack', self.stack_start), ...]: if not stack: continue; write name; serialise stack
+                if isinstance(st.iter, (ast.List, ast.Tuple)) and isinstance(st.target, ast.Tuple) and len(st.target.elts) == 2 \
+                        and any(isinstance(n, ast.Attribute) and n.attr == 'serialise' for n in ast.walk(st)):
+                    nm_var, st_var = (x.id for x in st.target.elts)
+                    ser = [ast.unparse(n.iter) for n in ast.walk(st) if isinstance(n, ast.For) and n is not st]
+                    guards = [ast.unparse(n.test) for n in ast.walk(st) if isinstance(n, ast.If)]
+                    name_written = any(isinstance(n, ast.FormattedValue) and isinstance(n.value, ast.Name) and n.value.id == nm_var for n in ast.walk(st))
+                    if ser != [st_var] or not name_written or not all(g in (f'not {st_var}', st_var) for g in guards):
+                        raise TranslateError(f'sndscript.py: Sound.export line {st.lineno}: operator stack loop not recognised')
+                    for el in st.iter.elts:
+                        if not (isinstance(el, ast.Tuple) and len(el.elts) == 2 and isinstance(el.elts[0], ast.Constant) and self_attr(el.elts[1])):
+                            raise TranslateError(f'sndscript.py: Sound.export line {st.lineno}: operator stack table entry not recognised')
+                        written.append((el.elts[0].value, self_attr(el.elts[1]), self_attr(el.elts[1])))
+                elif any(isinstance(n, ast.Attribute) and n.attr == 'serialise' for n in ast.walk(st)):
+                    raise TranslateError(f'sndscript.py: Sound.export line {st.lineno}: serialise loop outside a recognised stack block')
+    scan(fn.body)
+    # reader: a, b, c = (Keyvalues(stack_name, [... find_children('operator_stacks', stack_name)]) for stack_name in [names]) ; Sound(..., a, b, c, ...)
+    read: list[tuple[str, str]] = []
+    params = [a.arg for a in init.args.args][1:]
+    ctor = None
+    for n in ast.walk(parse_one):
+        if isinstance(n, ast.Return) and isinstance(n.value, ast.Call) and ast.unparse(n.value.func) in ('Sound', 'cls'):
+            ctor = n.value
+    if ctor is None:
+        raise TranslateError('sndscript.py: Sound.parse_one: constructor call not found')
+    arg_of = {ast.unparse(a): p for p, a in zip(params, ctor.args)}
+    arg_of.update({ast.unparse(k.value): k.arg for k in ctor.keywords})
+    for n in ast.walk(parse_one):
+        if isinstance(n, ast.Assign) and isinstance(n.targets[0], ast.Tuple) and isinstance(n.value, ast.GeneratorExp):
+            g = n.value.generators[0]
+            if isinstance(g.iter, (ast.List, ast.Tuple)) and all(isinstance(x, ast.Constant) for x in g.iter.elts) \
+                    and 'find_children' in ast.unparse(n.value.elt) and len(g.iter.elts) == len(n.targets[0].elts):
+                fc = [c for c in ast.walk(n.value.elt) if isinstance(c, ast.Call) and isinstance(c.func, ast.Attribute) and c.func.attr == 'find_children']
+                if len(fc) != 1 or ast.unparse(fc[0].args[-1]) != ast.unparse(g.target):
+                    raise TranslateError('sndscript.py: Sound.parse_one: stack lookup not recognised')
+                for tgt, nm in zip(n.targets[0].elts, g.iter.elts):
+                    p = arg_of.get(ast.unparse(tgt))
+                    if p is None:
+                        raise TranslateError(f'sndscript.py: Sound.parse_one: `{ast.unparse(tgt)}` is not passed to the constructor')
+                    read.append((nm.value, p))
+    if not read or not written:
+        raise TranslateError('sndscript.py: operator stack blocks not found on both sides')
+    # constructor parameter -> attribute
+    attr_of: dict[str, str] = {}
+    for n in ast.walk(init):
+        if isinstance(n, ast.Assign) and self_attr(n.targets[0]) and isinstance(n.value, ast.Name):
+            attr_of[n.value.id] = self_attr(n.targets[0])
+    # writer attributes are the public names (properties over the private fields the constructor fills)
+    read = [(nm, attr_of.get(p, p).lstrip('_')) for nm, p in read]
+    written = [(a, b.lstrip('_'), c.lstrip('_')) for a, b, c in written]
+    return written, read
+
+
+def translate_text_writers() -> tuple[str, dict]:
+    # ---- soundscripts
+    snd = _TextCensus('sndscript.py')
+    snd.ann.setdefault('sounds', set()).add('list[str]')
+    fn_snd = snd.walk('Sound.export')
+    written, read = _snd_stack_census(fn_snd, snd.funcs['Sound.parse_one'], snd.funcs['Sound.__init__'])
+    # ---- VMT
+    vmt = _TextCensus('vmt.py')
+    vmt.ann.setdefault('real_name', set()).add('str')
+    vmt.ann.setdefault('value', set()).add('str')
+    vmt.ann.setdefault('name', set()).add('str')
+    vmt.ann.setdefault('shader', set()).add('str')
+    vmt.walk('Material.export')
+    vmt.walk('_write_block')
+    # ---- choreo text
+    cho = _TextCensus('choreo.py')
+    tags_const = cho.const_callers('export_text', 3)
+    for key in ('Scene.export_text', 'Actor.export_text', 'Channel.export_text', 'Event.export_text', 'FlexAnimTrack.export_text'):
+        cho.walk(key)
+    # str parameters: Tag.export_text(file, indent, tags, block_name), Curve.export_text(file, indent, name)
+    curve_const = all(isinstance(n.args[2], ast.Constant) for n in ast.walk(cho.tree)
+                      if isinstance(n, ast.Call) and isinstance(n.func, ast.Attribute) and n.func.attr == 'export_text' and len(n.args) == 3
+                      and isinstance(n.func.value, ast.Attribute) and n.func.value.attr == 'ramp')
+    cho.walk('Tag.export_text', {'block_name': 'TyConst' if tags_const else 'TyStr'})
+    cho.walk('Curve.export_text', {'name': 'TyConst' if curve_const else 'TyStr'})
+
+    def cs(s: str) -> str:
+        return _coq_bytes(s.encode('ascii'))
+    lines = [
+        '(* GENERATED by translate/c20_formats.py from sndscript.py (Sound.export, Sound.parse_one), vmt.py (Material.export, _write_block),',
+        '   choreo.py (the export_text methods). Do not edit. *)',
+        'From Coq Require Import NArith List.', 'Import ListNotations.',
+        'From SV Require Import Fmt.TextFields.',
+        _coq_sites('snd_fields', snd.sites),
+        _coq_sites('vmt_fields', vmt.sites),
+        _coq_sites('cho_fields', cho.sites),
+        'Definition snd_stacks_written : list (list N * list N * list N) := ['
+        + '; '.join(f'({cs(a)}, {cs(b)}, {cs(c)})' for a, b, c in written) + '].   (* block name, guarding attribute, serialised attribute *)',
+        'Definition snd_stacks_read : list (list N * list N) := ['
+        + '; '.join(f'({cs(a)}, {cs(b)})' for a, b in read) + '].   (* block name, attribute it is read into *)',
+        '',
+    ]
+    side = {'sndscript': [list(s) for s in snd.sites], 'vmt': [list(s) for s in vmt.sites], 'choreo': [list(s) for s in cho.sites],
+            'stacks_written': written, 'stacks_read': read,
+            'digests': {'Sound.export': ast_digest(fn_snd)}}
+    return '\n'.join(lines), side
+
+
+# ================================================================================================ binary choreo: width paths
+
+_BIN_CLASSES = ['Scene', 'Actor', 'Channel', 'Event', 'FlexAnimTrack', 'Curve', 'Tag', 'TimingTag', 'AbsoluteTag']
+
+
+def _fmt_widths(fmt: str, what: str) -> list[int]:
+    body = fmt[1:] if fmt[:1] in '<>=!@' else fmt
+    if fmt[:1] not in '<>=!' and len(re.findall(r'[A-Za-z?]', body)) > 1:
+        raise TranslateError(f'choreo.py: {what}: native-aligned multi-field struct format {fmt!r}')
+    out: list[int] = []
+    pos = 0
+    for m in re.finditer(r'(\d*)([A-Za-z?])', body):
+        if m.start() != pos:
+            raise TranslateError(f'choreo.py: {what}: cannot parse struct format {fmt!r}')
+        pos = m.end()
+        cnt, code = m.group(1), m.group(2)
+        if code == 's':
+            out.append(int(cnt or '1'))
+            continue
+        w = {'b': 1, 'B': 1, '?': 1, 'c': 1, 'h': 2, 'H': 2, 'i': 4, 'I': 4, 'l': 4, 'L': 4, 'f': 4, 'q': 8, 'Q': 8, 'd': 8}.get(code)
+        if w is None:
+            raise TranslateError(f'choreo.py: {what}: struct code {code!r} not modelled')
+        out.extend([w] * int(cnt or '1'))
+    if pos != len(body):
+        raise TranslateError(f'choreo.py: {what}: cannot parse struct format {fmt!r}')
+    return out
+
+
+class _BinPaths:
+    """Enumerate, for a binary writer or reader method, every sequence of field widths / sub-record calls / loops it can
+    emit or consume (both arms of every `if`, `return` ends a path; a loop is one token holding the paths of its body)."""
+
+    def __init__(self, tree: ast.Module) -> None:
+        self.classes = {n.name: n for n in tree.body if isinstance(n, ast.ClassDef)}
+        self.ann: dict[tuple[str, str], str] = {}
+        self.classvars: dict[str, dict[str, str]] = {}
+        for c in self.classes.values():
+            for st in c.body:
+                if isinstance(st, ast.AnnAssign) and isinstance(st.target, ast.Name):
+                    a = ast.unparse(st.annotation)
+                    if st.value is not None and isinstance(st.value, ast.Call) and ast.unparse(st.value.func) == 'struct.Struct':
+                        self.classvars.setdefault(st.target.id, {})[c.name] = st.value.args[0].value
+                    else:
+                        self.ann[(c.name, st.target.id)] = a
+
+    def ann_of(self, cur: str, attr: str) -> str:
+        c = self.classes.get(cur.split('.')[0].split(' ')[0])
+        while c is not None:
+            if (c.name, attr) in self.ann:
+                return self.ann[(c.name, attr)]
+            c = self.classes.get(c.bases[0].id) if c.bases and isinstance(c.bases[0], ast.Name) else None
+        return ''
+
+    def elem_class(self, e: ast.AST, env: dict[str, str], cur: str) -> str:
+        """Class whose export_binary / parse_binary is called through expression e."""
+        if isinstance(e, ast.Name):
+            if e.id in ('cls',):
+                return 'self'
+            if e.id in self.classes:
+                return e.id if e.id in _BIN_CLASSES else self._base(e.id)
+            if e.id in env:
+                return env[e.id]
+        if isinstance(e, ast.Attribute) and isinstance(e.value, ast.Name) and e.value.id == 'self':
+            a = self.ann_of(cur, e.attr)
+            for nm in self.classes:
+                if re.fullmatch(rf'{nm}', a):
+                    return nm if nm in _BIN_CLASSES else self._base(nm)
+        raise TranslateError(f'choreo.py: {cur}: cannot tell which class `{ast.unparse(e)}` is')
+
+    def _base(self, nm: str) -> str:
+        # subclasses share the methods of their base (TimingTag / AbsoluteTag -> Tag, GestureEvent ... -> Event)
+        c = self.classes[nm]
+        while c.bases and isinstance(c.bases[0], ast.Name) and c.bases[0].id in self.classes:
+            c = self.classes[c.bases[0].id]
+        return c.name
+
+    def list_elem(self, e: ast.AST, cur: str) -> str | None:
+        if isinstance(e, ast.Attribute) and isinstance(e.value, ast.Name) and e.value.id == 'self':
+            m = re.fullmatch(r'list\[(\w+)\]( \| None)?', self.ann_of(cur, e.attr))
+            if m and m.group(1) in self.classes:
+                return m.group(1) if m.group(1) in _BIN_CLASSES else self._base(m.group(1))
+        return None
+
+    def io_tokens(self, node: ast.AST, env: dict[str, str], cur: str, side: str) -> list:
+        """Tokens of the I/O calls inside one expression / simple statement, in source order."""
+        found: list[tuple[int, int, list]] = []
+        skip: set[int] = set()
+        for n in ast.walk(node):
+            if id(n) in skip or not isinstance(n, ast.Call):
+                continue
+            f = ast.unparse(n.func)
+            where = f'{cur} line {n.lineno}'
+            toks: list | None = None
+            if side == 'w' and f == 'file.write' and len(n.args) == 1:
+                a = n.args[0]
+                for sub in ast.walk(a):
+                    skip.add(id(sub))
+                if isinstance(a, ast.Call) and ast.unparse(a.func) == 'struct.pack' and isinstance(a.args[0], ast.Constant):
+                    toks = _fmt_widths(a.args[0].value, where)
+                elif isinstance(a, ast.Call) and isinstance(a.func, ast.Attribute) and a.func.attr == 'pack' \
+                        and isinstance(a.func.value, ast.Attribute) and a.func.value.attr in self.classvars:
+                    toks = [('var', a.func.value.attr)]
+                elif isinstance(a, ast.Constant) and isinstance(a.value, bytes):
+                    toks = [len(a.value)]
+                elif isinstance(a, ast.IfExp) and all(isinstance(x, ast.Constant) and isinstance(x.value, bytes) for x in (a.body, a.orelse)) \
+                        and len(a.body.value) == len(a.orelse.value):
+                    toks = [len(a.body.value)]
+                else:
+                    raise TranslateError(f'choreo.py: {where}: file.write(`{ast.unparse(a)[:60]}`) not recognised')
+            elif side == 'r' and f == 'binformat.struct_read' and len(n.args) == 2:
+                a = n.args[0]
+                if isinstance(a, ast.Constant) and isinstance(a.value, str):
+                    toks = _fmt_widths(a.value, where)
+                elif isinstance(a, ast.Attribute) and a.attr in self.classvars:
+                    toks = [('var', a.attr)]
+                else:
+                    raise TranslateError(f'choreo.py: {where}: struct_read format `{ast.unparse(a)}` not recognised')
+            elif side == 'r' and f == 'file.read' and len(n.args) == 1:
+                if not (isinstance(n.args[0], ast.Constant) and isinstance(n.args[0].value, int)):
+                    raise TranslateError(f'choreo.py: {where}: file.read of a computed size')
+                toks = [n.args[0].value]
+            elif isinstance(n.func, ast.Attribute) and n.func.attr == ('export_binary' if side == 'w' else 'parse_binary') \
+                    and n.args and ast.unparse(n.args[0]) == 'file':
+                c = self.elem_class(n.func.value, env, where)
+                toks = [('call', cur.split('.')[0] if c == 'self' else c)]
+            elif any(isinstance(x, ast.Name) and x.id == 'file' for x in ast.walk(n)) and f not in ('BytesIO', 'file.getvalue') \
+                    and not any(isinstance(x, ast.Call) and x is not n and any(isinstance(y, ast.Name) and y.id == 'file' for y in ast.walk(x)) for x in ast.walk(n)):
+                raise TranslateError(f'choreo.py: {where}: `{ast.unparse(n)[:60]}` uses the file in a way that is not modelled')
+            if toks is not None:
+                found.append((n.lineno, n.col_offset, toks))
+        found.sort(key=lambda t: (t[0], t[1]))
+        return [t for _, _, ts in found for t in ts]
+
+    def paths(self, stmts: list[ast.stmt], env: dict[str, str], cur: str, side: str) -> set[tuple]:
+        """Set of (tokens..., done?) with done = path ended by return."""
+        acc: set[tuple] = {()}
+        done: set[tuple] = set()
+        for st in stmts:
+            if not acc:
+                break
+            if isinstance(st, ast.If):
+                pre = tuple(self.io_tokens(st.test, env, cur, side))
+                a = self._sub(st.body, env, cur, side)
+                b = self._sub(st.orelse, env, cur, side)
+                new: set[tuple] = set()
+                for p in acc:
+                    for q, fin in a | b:
+                        (done if fin else new).add(p + pre + q)
+                acc = new
+            elif isinstance(st, (ast.For, ast.While)):
+                if isinstance(st, ast.For):
+                    el = self.list_elem(st.iter, cur)
+                    if el and isinstance(st.target, ast.Name):
+                        env = dict(env, **{st.target.id: el})
+                body = self._sub(st.body, env, cur, side)
+                if any(fin for _, fin in body):
+                    raise TranslateError(f'choreo.py: {cur} line {st.lineno}: return inside a loop')
+                bp = frozenset(q for q, _ in body)
+                if bp != {()}:
+                    acc = {p + (('loop', tuple(sorted(bp, key=repr))),) for p in acc}
+            elif isinstance(st, ast.Return):
+                toks = tuple(self.io_tokens(st, env, cur, side)) if st.value is not None else ()
+                done |= {p + toks for p in acc}
+                acc = set()
+            elif isinstance(st, ast.Raise):
+                acc = set()
+            elif isinstance(st, (ast.Try, ast.With, ast.Match)):
+                raise TranslateError(f'choreo.py: {cur} line {st.lineno}: statement {type(st).__name__} not modelled')
+            else:
+                # list comprehension over range(...) containing reads = a loop
+                toks: list = []
+                comps = [n for n in ast.walk(st) if isinstance(n, ast.ListComp)]
+                inner_ids: set[int] = set()
+                for lc in comps:
+                    t = self.io_tokens(lc.elt, env, cur, side)
+                    if t:
+                        for sub in ast.walk(lc):
+                            inner_ids.add(id(sub))
+                        toks.append(('loop', (tuple(t),)))
+                if comps and toks:
+                    rest = [n for n in ast.walk(st) if isinstance(n, ast.Call) and id(n) not in inner_ids]
+                    if any(self.io_tokens(n, env, cur, side) for n in rest if not any(isinstance(x, ast.ListComp) for x in ast.walk(n))):
+                        raise TranslateError(f'choreo.py: {cur} line {st.lineno}: reads mixed with a comprehension')
+                else:
+                    toks = self.io_tokens(st, env, cur, side)
+                acc = {p + tuple(toks) for p in acc}
+        return {(p, False) for p in acc} | {(p, True) for p in done}
+
+    def _sub(self, stmts, env, cur, side) -> set[tuple]:
+        return self.paths(stmts, env, cur, side) if stmts else {((), False)}
+
+    def var_fmt(self, cname: str, var: str) -> str:
+        c = self.classes.get(cname)
+        while c is not None:
+            if c.name in self.classvars.get(var, {}):
+                return self.classvars[var][c.name]
+            c = self.classes.get(c.bases[0].id) if c.bases and isinstance(c.bases[0], ast.Name) else None
+        raise TranslateError(f'choreo.py: class-level struct format {var} not found for {cname}')
+
+    def method_paths(self, cname: str, mname: str, side: str) -> list[tuple]:
+        c = self.classes[cname]
+        fn = None
+        while c is not None and fn is None:
+            fn = next((f for f in c.body if isinstance(f, ast.FunctionDef) and f.name == mname), None)
+            if fn is None:
+                c = self.classes.get(c.bases[0].id) if c.bases and isinstance(c.bases[0], ast.Name) else None
+        if fn is None:
+            raise TranslateError(f'choreo.py: {cname}.{mname} not found')
+
+        def resolve(p: tuple) -> tuple:
+            out: list = []
+            for t in p:
+                if isinstance(t, tuple) and t[0] == 'var':
+                    out.extend(_fmt_widths(self.var_fmt(cname, t[1]), f'{cname}.{t[1]}'))
+                elif isinstance(t, tuple) and t[0] == 'loop':
+                    out.append(('loop', tuple(sorted({resolve(q) for q in t[1]}, key=repr))))
+                else:
+                    out.append(t)
+            return tuple(out)
+        ps = {resolve(p) for p, _ in self.paths(fn.body, {}, f'{c.name}.{mname}', side)}
+        return sorted(ps, key=repr)
+
+    def kind_tests(self) -> tuple[list[int], list[int], dict[str, int]]:
+        """Event kinds with extra fields: the writer tests the class (isinstance), the reader the type number."""
+        enum_vals: dict[str, int] = {}
+        for st in self.classes['EventType'].body:
+            if isinstance(st, ast.Assign) and isinstance(st.value, ast.Constant) and isinstance(st.value.value, int):
+                enum_vals[st.targets[0].id] = st.value.value
+        ev = self.classes['Event']
+        w_fn = next(f for f in ev.body if isinstance(f, ast.FunctionDef) and f.name == 'export_binary')
+        r_fn = next(f for f in ev.body if isinstance(f, ast.FunctionDef) and f.name == 'parse_binary')
+        names: dict[str, int] = {}
+        w: list[int] = []
+        for n in ast.walk(w_fn):
+            if isinstance(n, ast.If) and isinstance(n.test, ast.Call) and ast.unparse(n.test.func) == 'isinstance' and ast.unparse(n.test.args[0]) == 'self':
+                cls = self.classes.get(ast.unparse(n.test.args[1]))
+                member = None
+                for st in (cls.body if cls else []):
+                    if isinstance(st, ast.AnnAssign) and isinstance(st.target, ast.Name) and st.target.id == 'type' and isinstance(st.value, ast.Call):
+                        for kw in st.value.keywords:
+                            if kw.arg == 'default' and isinstance(kw.value, ast.Attribute) and ast.unparse(kw.value.value) == 'EventType':
+                                member = kw.value.attr
+                if member is None or member not in enum_vals:
+                    raise TranslateError(f'choreo.py: Event.export_binary line {n.lineno}: class test `{ast.unparse(n.test)}` has no EventType')
+                w.append(enum_vals[member])
+                names[member] = enum_vals[member]
+        r: list[int] = []
+        for n in ast.walk(r_fn):
+            if isinstance(n, ast.If) and isinstance(n.test, ast.Compare) and ast.unparse(n.test.left) == 'event_type' and len(n.test.ops) == 1 \
+                    and isinstance(n.test.ops[0], ast.Is) and isinstance(n.test.comparators[0], ast.Attribute) \
+                    and ast.unparse(n.test.comparators[0].value) == 'EventType':
+                m = n.test.comparators[0].attr
+                if m not in enum_vals:
+                    raise TranslateError(f'choreo.py: Event.parse_binary: unknown EventType.{m}')
+                r.append(enum_vals[m])
+                names[m] = enum_vals[m]
+        return sorted(set(w)), sorted(set(r)), names
+
+
+def translate_choreo_bin() -> tuple[str, dict]:
+    tree = ast.parse(src_text('choreo.py'))
+    bp = _BinPaths(tree)
+    calls = {c: i for i, c in enumerate(_BIN_CLASSES)}
+
+    def tok(t) -> str:
+        if isinstance(t, int):
+            return f'TW {t}'
+        if t[0] == 'call':
+            if t[1] not in calls:
+                raise TranslateError(f'choreo.py: binary record of class {t[1]} is not in the census')
+            return f'TCall {calls[t[1]]}'
+        if t[0] == 'loop':
+            return 'TLoop [' + '; '.join('[' + '; '.join(tok(x) for x in p) + ']' for p in t[1]) + ']'
+        raise TranslateError(f'choreo.py: token {t!r}')
+    per: dict[str, dict] = {}
+    lines = [
+        '(* GENERATED by translate/c20_formats.py from /repo/src/srctools/choreo.py (export_binary / parse_binary of the BVCD classes). Do not edit. *)',
+        'From Coq Require Import NArith List.', 'Import ListNotations.',
+        'From SV Require Import Fmt.ChoreoBin.',
+    ]
+    for c in _BIN_CLASSES:
+        w = bp.method_paths(c, 'export_binary', 'w')
+        r = bp.method_paths(c, 'parse_binary', 'r')
+        per[c] = {'writer': [repr(p) for p in w], 'reader': [repr(p) for p in r]}
+        lines.append(f'Definition cb_{c}_w : list (list btok) := [' + '; '.join('[' + '; '.join(tok(t) for t in p) + ']' for p in w) + '].')
+        lines.append(f'Definition cb_{c}_r : list (list btok) := [' + '; '.join('[' + '; '.join(tok(t) for t in p) + ']' for p in r) + '].')
+    lines.append('Definition cb_classes : list (list (list btok) * list (list btok)) := [' + '; '.join(f'(cb_{c}_w, cb_{c}_r)' for c in _BIN_CLASSES) + '].')
+    kw, kr, names = bp.kind_tests()
+    lines.append(f'Definition cb_kinds_w : list N := [{"; ".join(str(x) for x in kw)}]%N.   (* EventType of the classes Event.export_binary tests with isinstance *)')
+    lines.append(f'Definition cb_kinds_r : list N := [{"; ".join(str(x) for x in kr)}]%N.   (* EventType members Event.parse_binary tests *)')
+    for nm in ('Gesture', 'Loop', 'Speak'):
+        lines.append(f'Definition cb_type_{nm.lower()} : N := {names.get(nm, 255)}%N.')
+    lines.append('')
+    return '\n'.join(lines), {'paths': per, 'class_formats': bp.classvars, 'kinds': names}
+
+
+GEN = {'CmdSeqFmt_gen': translate_cmdseq, 'SmdTpl_gen': translate_smd, 'ScenesImg_gen': translate_scenes_image,
+       'TextFields_gen': translate_text_writers, 'ChoreoBin_gen': translate_choreo_bin}
